@@ -109,9 +109,30 @@ def r17_2(ctx: Ctx, rep: Report, fixture: bool = False) -> int:
     return hits
 
 
-def _must_assign(ctx: Ctx, f: Func, self_cls: Class, memo: Dict[Tuple[int, str], Set[str]], depth: int = 0) -> Set[str]:
-    """Attributes of self that are assigned on every normally-returning path of f (interprocedural, must)."""
-    key = (id(f), self_cls.name)
+class _Top(set):
+    """Must-assign set of a function that never returns normally: absorbing for union (vacuous truth)."""
+
+    def __or__(self, other):
+        return self
+
+    def __ror__(self, other):
+        return self
+
+    def __ior__(self, other):
+        return self
+
+    def __contains__(self, item) -> bool:
+        return True
+
+
+NEVER_RETURNS = _Top()
+
+
+def _must_assign(ctx: Ctx, f: Func, self_cls: Class, memo: Dict, depth: int = 0, symenv: Optional[Dict[str, object]] = None) -> Set[str]:
+    """Attributes of self that are assigned on every normally-returning path of f (interprocedural, must).
+
+    With `symenv` (e.g. {"self._platform": "ios"}) branches whose condition folds to a constant are pruned."""
+    key = (id(f), self_cls.name, tuple(sorted((symenv or {}).items())))
     if key in memo:
         return memo[key]
     memo[key] = set()
@@ -130,7 +151,10 @@ def _must_assign(ctx: Ctx, f: Func, self_cls: Class, memo: Dict[Tuple[int, str],
                 if isinstance(t, ast.Attribute) and src(t.value) == self_name and (not isinstance(n.ast, ast.AnnAssign) or n.ast.value is not None):
                     st = self_cls.lookup_setter(t.attr)
                     if st is not None:
-                        out |= _must_assign(ctx, st, self_cls, memo, depth + 1)
+                        r_ = _must_assign(ctx, st, self_cls, memo, depth + 1, symenv)
+                        if r_ is NEVER_RETURNS:
+                            return NEVER_RETURNS
+                        out |= r_
                     else:
                         out.add(t.attr)
         for x in ast.walk(n.ast):
@@ -146,10 +170,13 @@ def _must_assign(ctx: Ctx, f: Func, self_cls: Class, memo: Dict[Tuple[int, str],
                 elif isinstance(x.func.value, ast.Name) and x.func.value.id in ctx.prog.classes and x.args and src(x.args[0]) == self_name:
                     callee = ctx.prog.classes[x.func.value.id].lookup_method(x.func.attr)
                 if callee is not None and callee is not f:
-                    out |= _must_assign(ctx, callee, self_cls, memo, depth + 1)
+                    r_ = _must_assign(ctx, callee, self_cls, memo, depth + 1, symenv)
+                    if r_ is NEVER_RETURNS:
+                        return NEVER_RETURNS
+                    out |= r_
         return out
 
-    # forward must-analysis: IN[n] = intersection of OUT[pred]; OUT = IN | gen
+    # forward must-analysis (a node that calls a never-returning callee has no normal successor state): IN[n] = intersection of OUT[pred]; OUT = IN | gen
     order = cfg.live
     OUT: Dict[Node, Optional[Set[str]]] = {n: None for n in order}
     changed = True
@@ -159,7 +186,17 @@ def _must_assign(ctx: Ctx, f: Func, self_cls: Class, memo: Dict[Tuple[int, str],
         changed = False
         it += 1
         for n in order:
-            preds = [p for lab, p in n.pred if lab != "exc"]
+            preds = []
+            for lab, p in n.pred:
+                if lab == "exc":
+                    continue
+                if symenv and p.kind == "cond" and lab in ("T", "F"):
+                    from ..fold import known as _known
+
+                    v = ctx.folder.fold(p.ast, f.module, dict(symenv))
+                    if _known(v) and bool(v) != (lab == "T"):
+                        continue  # infeasible edge for this platform
+                preds.append(p)
             ins: Optional[Set[str]] = None
             for p in preds:
                 if OUT.get(p) is None:
@@ -169,11 +206,15 @@ def _must_assign(ctx: Ctx, f: Func, self_cls: Class, memo: Dict[Tuple[int, str],
                 ins = set()
             if ins is None:
                 continue
+            if gens[n] is NEVER_RETURNS:
+                continue  # the statement never completes normally
             new = ins | gens[n]
             if OUT[n] is None or new != OUT[n]:
                 OUT[n] = new
                 changed = True
-    res = OUT.get(cfg.exit) or set()
+    res = OUT.get(cfg.exit)
+    if res is None:
+        res = NEVER_RETURNS  # no normal path (under this platform): vacuous for the caller
     memo[key] = res
     return res
 
@@ -220,7 +261,22 @@ def r17_3(ctx: Ctx, rep: Report) -> None:
             rep.violation(f.qualname, kind, f"the donor object is a {donor_cls}, not a {f.cls.name if f.cls else '?'}: attributes of the receiver survive the re-initialisation", where(f, call))
 
 
+PREMISES = ["c10", "c15", "c16", "c19", "c02", "c04"]
+
+
 def run(ctx: Ctx, rep: Report, tier: str) -> None:
+    # R17.0: the structural obligations of every public operation (resequence, group/ungroup/sort, copy/export/import
+    # and the switches, port splitting, platform change, shadow removal) are necessary conditions of this property too:
+    # an operation that breaks its own contract cannot agree with a reference model of that operation.
+    import importlib
+
+    for name in PREMISES:
+        mod = importlib.import_module(f"sa.rules.{name}")
+        if getattr(mod, "EXPLANATION", "") == "not implemented":
+            continue
+        sub = Report(name.upper())
+        mod.run(ctx, sub, tier)
+        rep.absorb(sub, "R17.0")
     r17_1(ctx, rep)
     r17_2(ctx, rep)
     from ..fixtures import run_fixture
